@@ -106,7 +106,9 @@ func entryLexDefs(rc *RunCtx) *Violation {
 		def = generatedDefs[ld.genName]
 		name += "(generated)"
 	} else {
+		simrt.ShuffleMaps = true
 		def = ld.build()
+		simrt.ShuffleMaps = false
 	}
 	rc.agg.Worlds["lexdef:"+name]++
 	x := ld.corpus[simrt.Choose(len(ld.corpus))]
@@ -189,7 +191,10 @@ func entryParser(rc *RunCtx) *Violation {
 	o, variant := drawBuild(w)
 	delims := runDelims(rc.seed)
 	var p PH
-	if pn := catch(func() { p = w.build(o) }); pn != "" {
+	simrt.ShuffleMaps = true
+	pn := catch(func() { p = w.build(o) })
+	simrt.ShuffleMaps = false
+	if pn != "" {
 		return &Violation{Signature: "entry/" + w.name + "/build-panic", Detail: pn}
 	}
 	rc.agg.Worlds[w.name]++
@@ -381,6 +386,18 @@ func entryParser(rc *RunCtx) *Violation {
 				return viol("read-error-wrong-result", fmt.Sprintf("reader failed after %d bytes; Parse returned %s, which is neither an error nor the result for the delivered prefix (%s)", len(prefix), clip(got.desc(), 400), clip(want.desc(), 400)))
 			}
 			rc.probe("read error swallowed: result equals that of the delivered prefix")
+		}
+	}
+
+	// results stay what they were: parse a different document, then look at the pivot again
+	{
+		before := pivot.desc()
+		other := w.docs[simrt.Choose(len(w.docs))]
+		otherText := instantiate(other.text, delims) + " "
+		call(func() (interface{}, error) { return p.ParseString("other.txt", otherText) })
+		call(func() (interface{}, error) { return p.ParseBytes("other.txt", []byte(otherText)) })
+		if after := pivot.desc(); after != before {
+			return viol("result-changed-after-later-call", fmt.Sprintf("the result of ParseString changed after later calls on the same parser: was %s, now %s", clip(before, 400), clip(after, 400)))
 		}
 	}
 
